@@ -3,6 +3,7 @@ use crate::ctx::Ctx;
 pub mod c07;
 pub mod c09;
 pub mod c10;
+pub mod c11;
 pub mod c14;
 pub mod c15;
 pub mod c17;
@@ -12,9 +13,13 @@ pub fn dispatch(ctx: &mut Ctx) -> bool {
         "C07" => c07::run(ctx),
         "C09" => c09::run(ctx),
         "C10" => c10::run(ctx),
+        "C11" => c11::run(ctx),
         "C14" => c14::run(ctx),
         "C15" => c15::run(ctx),
         "C17" => c17::run(ctx),
+        // self-tests of the watchdog (not registered checks)
+        "ZDEADLOCK" => ctx.case("block", 0, |_c, _r| { let (_tx, rx) = std::sync::mpsc::channel::<u8>(); let _ = rx.recv_timeout(std::time::Duration::from_secs(3600)); }),
+        "ZSPIN" => ctx.case("spin", 0, |_c, _r| { let mut x = 0u64; loop { x = x.wrapping_mul(3).wrapping_add(1); if x == 7 { std::hint::black_box(x); } } }),
         _ => return false,
     }
     true
